@@ -154,7 +154,7 @@ class DGen(qf.QGen):
 def gen_kw(rng):
     kw = {}
     if rng.random() < 0.7:
-        kw["q"] = rng.choice(['"', "`", None, "["])
+        kw["q"] = rng.choice(['"', "`", None])
     if rng.random() < 0.7:
         kw["rest"] = [rng.choice(["'", '"', "'"]), rng.choice([None, '"', "`", ""]), rng.random() < 0.4]
     return kw
@@ -213,6 +213,10 @@ def witnesses():
                                                         ["t", ["vals", "x", "y"]]])
     W["w_qualifier"] = {"k": "sel", "cls": "SnowflakeQuery", "from": [["t", _T("t", "ta")]], "joins": [],
                         "selects": [["t", ["field", "a", ["#0", [], None], None]]]}
+    W["w_setop_alias"] = {"k": "sel", "cls": "SnowflakeQuery",
+                          "from": [["q", {"k": "set", "base": _sel("SnowflakeQuery", "t", [["t", _F("a")]]),
+                                          "ops": [["union", _sel("SnowflakeQuery", "u", [["t", _F("a")]])]], "alias": "su"}]],
+                          "joins": [], "selects": [["t", ["field", "a", ["#0", [], None], None]]]}
     W["p_nested"] = {
         "k": "sel", "cls": "MySQLQuery",
         "from": [["t", _T("t")],
@@ -294,8 +298,9 @@ def lex(text):
 
 
 ROLE_OF = {"zt": "ident", "zh": "ident", "zc": "ident", "za": "alias", "zb": "criterion-alias", "zq": "query-alias",
-           "zw": "cte-name", "zs": "string"}
-_SENT = re.compile(r"^(zt|zh|zc|za|zb|zq|zw|zs)(\d+)$")
+           "zu": "setop-alias", "zw": "cte-name", "zs": "string"}
+# roles whose deviation does not depend on the nesting position or on the inner class: reported once per outer class
+POSITION_FREE = ("cte-name", "criterion-alias", "alias-qualifier", "alias-reference", "setop-alias")
 
 
 class Sentinels:
@@ -305,21 +310,31 @@ class Sentinels:
         self.n = 0
         self.meta = {}
 
-    def new(self, prefix, path, cls, fn):
+    def new(self, prefix, path, cls, fn, gov=None):
+        """[cls]: the class whose defaults govern this position (see [decisive]); for a sub-query alias the class of
+        that sub-query, and [gov] the governing class (its AS keyword follows that one)"""
         self.n += 1
         name = "%s%d" % (prefix, self.n)
         if fn == "term":
             kind = "funcarg-term"
         elif "funcarg" in path:
             kind = "funcarg"
+        elif path and path[0] == "setop":
+            kind = "setop-top"
         elif not path:
             kind = "top"
-        elif path == ["setop"]:
-            kind = "setop-top"
         else:
             kind = path[-1]
-        self.meta[name] = (ROLE_OF[prefix], kind, cls)
+        self.meta[name] = (ROLE_OF[prefix], kind, cls, gov or cls)
         return name
+
+    @staticmethod
+    def decisive(cls, parent, absent):
+        """a statement right below a function call, or an operand of a top-level set operation, finds the alias / literal
+        keys ABSENT and fills them from its OWN class; everything else inherits the governing class"""
+        if absent or parent is None:
+            return cls
+        return parent["dec"]
 
     # --- terms ---
     def tref(self, t, st):
@@ -328,26 +343,26 @@ class Sentinels:
         name, schema, alias = t
         if name.startswith("#"):
             return t
-        return [self.new("zt", st["path"], st["cls"], st["fn"]), [self.new("zh", st["path"], st["cls"], st["fn"]) for _ in (schema or [])],
-                None if alias is None else self.new("za", st["path"], st["cls"], st["fn"])]
+        return [self.new("zt", st["path"], st["dec"], st["fn"]), [self.new("zh", st["path"], st["dec"], st["fn"]) for _ in (schema or [])],
+                None if alias is None else self.new("za", st["path"], st["dec"], st["fn"])]
 
     def alias(self, a, st, prefix="za"):
         if a is None:
             return None
         key = (prefix, a)
         if key not in st["amap"]:
-            st["amap"][key] = self.new(prefix, st["path"], st["cls"], st["fn"])
+            st["amap"][key] = self.new(prefix, st["path"], st["dec"], st["fn"])
         return st["amap"][key]
 
     def term(self, t, st):
         k = t[0]
         fnst = dict(st, fn=("term" if st["fn"] is None else st["fn"]))
         if k == "field":
-            return ["field", self.new("zc", st["path"], st["cls"], st["fn"]), self.tref(t[2], st), self.alias(t[3], st)]
+            return ["field", self.new("zc", st["path"], st["dec"], st["fn"]), self.tref(t[2], st), self.alias(t[3], st)]
         if k == "star":
             return ["star", self.tref(t[1], st)]
         if k == "vals":
-            return ["vals", self.new("zs", st["path"], st["cls"], st["fn"]), self.alias(t[2], st)]
+            return ["vals", self.new("zs", st["path"], st["dec"], st["fn"]), self.alias(t[2], st)]
         if k in ("vali", "valf", "vald"):
             return [k, t[1], self.alias(t[2], st)]
         if k == "valb":
@@ -390,14 +405,15 @@ class Sentinels:
         k = it[0]
         if k == "t":
             return ["t", self.term(it[1], st)]
+        ab = st.get("abs", False)
         if k == "sub":
-            return ["sub", self.query(it[1], st["path"] + ["select-sub"], st)]
+            return ["sub", self.query(it[1], st["path"] + ([] if ab else ["select-sub"]), st, ab)]
         if k == "in":
-            return ["in", self.term(it[1], st), self.query(it[2], st["path"] + ["in"], st), it[3]]
+            return ["in", self.term(it[1], st), self.query(it[2], st["path"] + ([] if ab else ["in"]), st, ab), it[3]]
         if k == "exists":
-            return ["exists", self.query(it[1], st["path"] + ["exists"], st), it[2]]
+            return ["exists", self.query(it[1], st["path"] + ([] if ab else ["exists"]), st, ab), it[2]]
         if k == "cmp":
-            return ["cmp", it[1], self.term(it[2], st), self.query(it[3], st["path"] + ["cmp"], st)]
+            return ["cmp", it[1], self.term(it[2], st), self.query(it[3], st["path"] + ([] if ab else ["cmp"]), st, ab)]
         if k == "func":
             fnst = dict(st, fn=("term" if st["fn"] is None else st["fn"]))
             args = []
@@ -405,7 +421,7 @@ class Sentinels:
                 if a[0] == "t":
                     args.append(["t", self.term(a[1], fnst)])
                 else:
-                    args.append(self.item(a, dict(st, path=st["path"] + ["funcarg"])))
+                    args.append(self.item(a, dict(st, path=st["path"] + ["funcarg"], abs=True)))
             return ["func", it[1], args, self.alias(it[3], st)]
         if k == "cplx":
             return ["cplx", it[1], self.item(it[2], st), self.item(it[3], st)]
@@ -420,30 +436,32 @@ class Sentinels:
             return ["q", self.query(s[1], st["path"] + [edge], st)]
         return ["a", cte.get(s[1], s[1])]
 
-    def query(self, s, path, parent=None):
+    def query(self, s, path, parent=None, absent=False):
         k = s["k"]
         if k == "set":
             top = top_cls_name(s)
-            base = self.query(s["base"], path + ["setop"], parent)
-            st = {"path": path, "cls": top, "fn": None, "amap": dict(self._last_amap)}
-            out = {"k": "set", "base": base, "ops": [[o, self.query(q, path + ["setop"], parent)] for o, q in s["ops"]]}
+            absent = absent or parent is None          # a top-level set operation leaves the keys to its operands
+            base = self.query(s["base"], path + ["setop"], parent, absent)
+            st = {"path": path, "cls": top, "dec": self.decisive(top, parent, absent), "fn": None, "amap": dict(self._last_amap)}
+            out = {"k": "set", "base": base, "ops": [[o, self.query(q, path + ["setop"], parent, absent)] for o, q in s["ops"]]}
             if s.get("orderby"):
                 out["orderby"] = [[self.term(t, st), d] for t, d in s["orderby"]]
             for key in ("limit", "offset"):
                 if s.get(key) is not None:
                     out[key] = s[key]
             if s.get("alias") is not None:
-                out["alias"] = self.new("zq", path, top, None)
+                out["alias"] = self.new("zu", path, top, None, parent["dec"] if parent is not None else top)
             return out
         cls = s["cls"]
-        st = {"path": path, "cls": cls, "fn": None, "amap": {}}
+        st = {"path": path, "cls": cls, "dec": self.decisive(cls, parent, absent), "fn": None, "amap": {}}
+        dec = st["dec"]
         out = {"k": k, "cls": cls}
         if k == "sel":
             cte = {}
             if s.get("with"):
                 out["with"] = []
                 for name, sub in s["with"]:
-                    cte[name] = self.new("zw", path, cls, None)
+                    cte[name] = self.new("zw", path, dec, None)
                     out["with"].append([cte[name], self.query(sub, path + ["with"], st)])
             out["from"] = [self.source(x, st, "from", cte) for x in s.get("from", [])]
             out["joins"] = []
@@ -452,7 +470,7 @@ class Sentinels:
                 if cond[0] == "on":
                     cond2 = ["on", self.item(cond[1], st)]
                 elif cond[0] == "using":
-                    cond2 = ["using", [self.new("zc", path, cls, None) for _ in cond[1]]]
+                    cond2 = ["using", [self.new("zc", path, dec, None) for _ in cond[1]]]
                 else:
                     cond2 = cond
                 out["joins"].append([how, src2, cond2])
@@ -468,12 +486,12 @@ class Sentinels:
                 if s.get(key) is not None:
                     out[key] = s[key]
             if s.get("alias") is not None:
-                out["alias"] = self.new("zq", path, cls, None)
+                out["alias"] = self.new("zq", path, cls, None, parent["dec"] if parent is not None and not absent else cls)
             self._last_amap = st["amap"]
             return out
         if k == "ins":
             out["into"] = self.tref(s["into"], st)
-            out["columns"] = [self.new("zc", path, cls, None) for _ in s.get("columns", [])]
+            out["columns"] = [self.new("zc", path, dec, None) for _ in s.get("columns", [])]
             out["replace"] = s.get("replace", False)
             if s.get("rows"):
                 out["rows"] = [[self.item(i, st) for i in row] for row in s["rows"]]
@@ -489,7 +507,7 @@ class Sentinels:
             out["table"] = self.tref(s["table"], st)
             out["from"] = [self.source(x, st, "from", {}) for x in s.get("from", [])]
             out["joins"] = []
-            out["sets"] = [[self.new("zc", path, cls, None), self.item(v, st)] for _, v in s.get("sets", [])]
+            out["sets"] = [[self.new("zc", path, dec, None), self.item(v, st)] for _, v in s.get("sets", [])]
             if s.get("where") is not None:
                 out["where"] = self.item(s["where"], st)
             if s.get("limit") is not None:
@@ -536,45 +554,53 @@ def kw_conv(cls_name, kw):
 def expected_quote(role, conv):
     if role == "ident" or role == "cte-name":
         return conv["q"] or None
-    if role in ("alias", "criterion-alias", "alias-qualifier"):
+    if role in ("alias", "criterion-alias", "alias-qualifier", "alias-reference"):
         return (conv["aq"] or conv["q"]) or None
-    if role == "query-alias":
+    if role in ("query-alias", "setop-alias"):
         return (conv["qa"] or conv["q"]) or None
     if role == "string":
         return conv["sq"] or None
     raise ValueError(role)
 
 
-def sentinel_report(text, meta, conv, outer, check_qalias=True):
+def sentinel_report(text, meta, conv, outer, check_qalias=True, collapse=False):
     """every occurrence of every sentinel must carry the outer convention's quote for its role"""
     toks = lex(text)
     out = []
+
+    def sig(inner, pk, role):
+        if collapse:
+            return ["C07", outer, "-", pk if role not in POSITION_FREE else "any", role]
+        if role in POSITION_FREE:
+            return ["C07", outer, "-", "any", role]
+        if pk == "funcarg-term":       # the fall-backs of Function.get_sql apply, whatever class governs around it
+            return ["C07", outer, "-", pk, role]
+        return ["C07", outer, inner, pk, role]
     for i, (kind, val, quote) in enumerate(toks):
         if kind not in ("q", "word") or val not in meta:
             continue
-        role, pk, inner = meta[val]
+        role, pk, inner, gov = meta[val]
         nxt = toks[i + 1] if i + 1 < len(toks) else None
         prv = toks[i - 1] if i > 0 else None
-        if role == "alias" and nxt is not None and nxt[0] == "punct" and nxt[1] == ".":
+        qualifier = nxt is not None and nxt[0] == "punct" and nxt[1] == "."
+        reference = prv is not None and ((prv[0] == "word" and prv[1].upper() == "BY") or (prv[0] == "punct" and prv[1] in ",("))
+        if role == "alias" and qualifier:
             role = "alias-qualifier"
-        if role == "query-alias" and (not check_qalias or (nxt is not None and nxt[0] == "punct" and nxt[1] == ".")):
+        elif role == "alias" and reference:
+            role = "alias-reference"
+        if role in ("query-alias", "setop-alias") and (not check_qalias or qualifier):
             continue
         exp = expected_quote(role, conv)
         if quote != exp:
-            out.append({"signature": ["C07", outer, inner, pk, role],
-                        "what": "%s sentinel %s is written %s, the outer class %s writes this role %s; statement: %s" % (
+            out.append({"signature": sig(inner, pk, role),
+                        "what": "%s sentinel %s is written %s, the outer convention (%s) writes this role %s; statement: %s" % (
                             role, val, _q(quote), outer, _q(exp), text[:400])})
         # AS keyword at definition sites
-        if role in ("alias", "criterion-alias", "query-alias") and prv is not None:
-            if prv[0] == "word" and prv[1].upper() == "AS":
-                has_as = True
-            elif (prv[0] == "word" and prv[1].upper() == "BY") or (prv[0] == "punct" and prv[1] in ",("):
-                has_as = None
-            else:
-                has_as = False
-            if has_as is not None and has_as != conv["as"]:
-                out.append({"signature": ["C07", outer, inner, pk, "as-keyword"],
-                            "what": "alias %s is introduced %s AS, the outer class %s writes aliases %s AS; statement: %s" % (
+        if role in ("alias", "criterion-alias", "query-alias", "setop-alias") and prv is not None and not reference:
+            has_as = prv[0] == "word" and prv[1].upper() == "AS"
+            if has_as != conv["as"]:
+                out.append({"signature": sig(gov, pk, "as-keyword"),
+                            "what": "alias %s is introduced %s AS, the outer convention (%s) writes aliases %s AS; statement: %s" % (
                                 val, "with" if has_as else "without", outer, "with" if conv["as"] else "without", text[:400])})
     return out
 
@@ -609,7 +635,8 @@ def devendor(text, kind):
         if i + 1 < n and U[i + 1] in ("SELECT", "WITH"):
             before = U[i - 1] if i > 0 else None
             after = U[j + 1] if j + 1 < n else None
-            if before in SETOPS or before == "ALL" or after in SETOPS:
+            starts = i == 0 or t[i - 1] == ("punct", "(")
+            if before in SETOPS or before == "ALL" or (after in SETOPS and starts):
                 drop[i] = drop[j] = True
     depth = 0
     i = 0
@@ -705,7 +732,7 @@ def run_vendor(case):
     meta = {}
 
     def reg(name, role, kind="top", inner=None):
-        meta[name] = (role, kind, inner or case["cls"])
+        meta[name] = (role, kind, inner or case["cls"], inner or case["cls"])
         return name
     t = Table(reg("zt1", "ident"))
     u = Table(reg("zt2", "ident"))
@@ -759,8 +786,8 @@ def vendor_oracle(case, outcome):
                 out.append({"signature": ["C07", cls, inner, "vendor:forms", "interval-form"],
                             "what": "INTERVAL rendered %s under %s (documented form: %s): %s" % (got, cls, want, text)})
         n_int = len(re.findall(r"INTERVAL '", text))
-        if n_int != 5:
-            out.append({"signature": ["C07", cls, inner, "vendor:forms", "interval-count"], "what": "expected 5 INTERVAL literals: " + text})
+        if n_int != 4:
+            out.append({"signature": ["C07", cls, inner, "vendor:forms", "interval-count"], "what": "expected 4 INTERVAL literals: " + text})
         want_a = ARRAY_FORM.get(cls, "[")
         got_arr = re.findall(r"(ARRAY)?\[", text)
         for g in got_arr:
@@ -843,12 +870,11 @@ def oracle(case, outcome):
         out += sentinel_report(outcome["sent_text"], meta, class_conv(outer), outer)
     else:
         conv = kw_conv(outer, kw)
-        if "rest" in kw:
-            out += sentinel_report(outcome["sent_text"], meta, conv, outer + "+kwargs", check_qalias=False)
-        else:
+        rep = sentinel_report(outcome["sent_text"], meta, conv, "explicit-kwargs", check_qalias=False, collapse=True)
+        if "rest" not in kw:
             # only quote_char was given: identifiers must follow it (aliases / literals keep each class's own defaults)
-            out += [v for v in sentinel_report(outcome["sent_text"], meta, conv, outer + "+kwargs", check_qalias=False)
-                    if v["signature"][4] == "ident"]
+            rep = [v for v in rep if v["signature"][4] == "ident"]
+        out += rep
     # the same specification built by each class: quoting per class, and devendored token sequences against the generic class
     per = outcome.get("per_class") or {}
     ref = per.get("Query")
@@ -856,7 +882,7 @@ def oracle(case, outcome):
     for c, txt in per.items():
         if txt.startswith("!"):
             continue
-        cmeta = {k: (r, pk, c) for k, (r, pk, _) in meta.items()}
+        cmeta = {k: (r, pk, c, c) for k, (r, pk, _, _) in meta.items()}
         out += sentinel_report(txt, cmeta, class_conv(c), c)
         if ref is not None and not ref.startswith("!") and c != "Query":
             d = first_diff(devendor(txt, kind), devendor(ref, kind))
@@ -963,3 +989,103 @@ def targeted_search(rng, broken, mism_cases):
     for _ in range(300):
         out.append({"spec": g.any(), "relabel": None, "kw": None})
     return out
+
+
+# ----------------------------------------------------------------------------------------------
+# the known findings, computed from the class constants by the exact characterisation proved in coq/props/C07.v
+# (python -m harness.props.C07 --write-findings  regenerates findings.d/C07.json)
+# ----------------------------------------------------------------------------------------------
+def predicted_findings():
+    conv = {c: class_conv(c) for c in CLS_NAMES}
+
+    def aq_of(o, supplier_aq):
+        return (supplier_aq or conv[o]["q"]) or None
+    F = []
+
+    def add(sig, what, witness):
+        F.append({"signature": sig, "what": what, "witness": witness})
+    w_fn = "SnowflakeQuery.from_(t).select(Coalesce(Query.from_(u).select(u.b.as_('bb')), 1)) -> SELECT COALESCE((SELECT b bb FROM u),1) FROM t (selected directly: b \"bb\")"
+    w_as = "Query.from_(t).select(Coalesce(ClickHouseQuery.from_(u).select(u.b.as_('bb')), 1)) -> SELECT COALESCE((SELECT \"b\" AS \"bb\" FROM \"u\"),1) FROM \"t\""
+    w_qa = "MySQLQuery.from_(PostgreSQLQuery.from_(u).select('b').as_('s')).select('*') -> SELECT * FROM (SELECT `b` FROM `u`) \"s\""
+    w_set = "MySQLQuery.from_(t).select(t.a.as_('x')).union(PostgreSQLQuery.from_(u).select(u.b.as_('y'))) -> (SELECT `a` `x` FROM `t`) UNION (SELECT `b` \"y\" FROM `u`)"
+    for o in CLS_NAMES:
+        for i in CLS_NAMES:
+            for kind, wit in (("funcarg", w_fn), ("setop-top", w_set)):
+                where = "inside a function argument" if kind == "funcarg" else "that is an operand of a top-level set operation"
+                if aq_of(o, conv[i]["aq"]) != aq_of(o, conv[o]["aq"]):
+                    add(["C07", o, i, kind, "alias"],
+                        "an alias in a %s (sub-)query %s of a %s statement is quoted by the inner class's ALIAS_QUOTE_CHAR "
+                        "(alias_quote_char is not forwarded there), not by the outer convention" % (i, where, o), wit)
+                if conv[i]["as"] != conv[o]["as"]:
+                    add(["C07", o, i, kind, "as-keyword"],
+                        "an alias in a %s (sub-)query %s of a %s statement follows the inner class's as_keyword" % (i, where, o),
+                        w_as if kind == "funcarg" else w_set)
+            qa_i = (conv[i]["qa"] or conv[o]["q"]) or None
+            qa_o = (conv[o]["qa"] or conv[o]["q"]) or None
+            if qa_i != qa_o:
+                for kind in ("from", "join", "select-sub", "funcarg", "setop-top"):
+                    add(["C07", o, i, kind, "query-alias"],
+                        "the alias of a %s sub-query (%s position) inside a %s statement is quoted with the SUB-query class's "
+                        "ALIAS_QUOTE_CHAR / QUERY_ALIAS_QUOTE_CHAR (QueryBuilder.get_sql overwrites alias_quote_char with its own constants)"
+                        % (i, kind, o), w_qa)
+    for o in CLS_NAMES + ["explicit-kwargs"]:
+        c = conv.get(o)
+        if c is None or c["q"]:
+            add(["C07", o, "-", "any", "cte-name"],
+                "WITH-clause names (and FROM references to them) are rendered bare by every class while columns qualified by them are quoted",
+                "MySQLQuery.with_(MySQLQuery.from_(u).select('b'),'cte').from_(AliasedQuery('cte')).select('*') -> WITH cte AS (SELECT `b` FROM `u`) SELECT * FROM cte")
+        add(["C07", o, "-", "any", "criterion-alias"],
+            "the alias of a comparison (BasicCriterion) is quoted by alias_quote_char only: quote_char is a named parameter of "
+            "BasicCriterion.get_sql and never reaches format_alias_sql",
+            "Query.from_(t).select((t.a == t.b).as_('crit')) -> SELECT \"a\"=\"b\" crit FROM \"t\"")
+        if c is None or (c["aq"] and c["aq"] != c["q"]):
+            add(["C07", o, "-", "any", "alias-qualifier"],
+                "a table alias is introduced with alias_quote_char but used as a column qualifier with quote_char",
+                "SnowflakeQuery.from_(Table('t').as_('ta')).select(ta.a) -> SELECT ta.a FROM t \"ta\"")
+            add(["C07", o, "-", "any", "setop-alias"],
+                "the alias of a set operation used as a source is quoted by alias_quote_char (a _SetOperation has no QUERY_ALIAS_QUOTE_CHAR) "
+                "while references to it are written with quote_char",
+                "SnowflakeQuery.from_(q1.union(q2).as_('su')).select(...) -> ... FROM ((SELECT ..) UNION (SELECT ..)) \"su\" with columns su.x")
+            add(["C07", o, "-", "funcarg-term", "alias"],
+                "an aliased literal / term inside a function call gets quote_char instead of alias_quote_char (Function.get_sql re-packs only "
+                "quote_char / dialect / with_namespace)",
+                "SnowflakeQuery.from_(t).select(Coalesce(ValueWrapper('x').as_('y'),1), ValueWrapper('x').as_('y')) -> SELECT COALESCE('x' y,1),'x' \"y\" FROM t")
+        if c is None or c["as"]:
+            add(["C07", o, "-", "funcarg-term", "as-keyword"],
+                "an aliased literal / term inside a function call is written without AS although the statement's convention uses AS",
+                "ClickHouseQuery.from_(t).select(Coalesce(ValueWrapper('x').as_('y'),1)) -> SELECT COALESCE('x' \"y\",1) FROM \"t\"")
+    for o in ("SnowflakeQuery", "OracleQuery", "MySQLQuery", "explicit-kwargs"):
+        add(["C07", o, "-", "any", "alias-reference"],
+            "a GROUP BY / ORDER BY reference to a selected alias is quoted differently from the alias itself: _SetOperation._orderby_sql uses "
+            "quote_char only; below a function call the reference follows the inner class",
+            "SnowflakeQuery: (SELECT a \"x\" FROM t) UNION (SELECT b \"x\" FROM u) ORDER BY x")
+    for kind in ("funcarg", "funcarg-term"):
+        for role in ("alias", "as-keyword", "string"):
+            if not (kind == "funcarg-term" and role in ("alias", "as-keyword")):
+                add(["C07", "explicit-kwargs", "-", kind, role],
+                    "explicit secondary_quote_char / alias_quote_char / as_keyword are lost below a function call (Function.get_sql forwards "
+                    "only quote_char, dialect, with_namespace)",
+                    "Query.from_(t).select(Coalesce(t.a,'x'),'y').get_sql(quote_char='`', secondary_quote_char='\"') -> SELECT COALESCE(`a`,'x'),\"y\" FROM `t`")
+    for lab in ("insert", "select+where"):
+        add(["C07", "SQLLiteQuery", "SQLLiteQuery", "vendor:sqlite-bool", "boolean-form:" + lab],
+            "SQLLiteQuery writes Python booleans as 1/0 in the select list and in UPDATE SET (builder wraps with SQLLiteValueWrapper) but as "
+            "true/false in comparisons (Term.wrap_constant default wrapper) and in INSERT VALUES (_apply_terms wraps without the class wrapper)",
+            "SQLLiteQuery.from_(t).select(True).where(t.a == True) -> SELECT 1 FROM \"t\" WHERE \"a\"=true ; SQLLiteQuery.into(t).insert(True) -> INSERT INTO \"t\" VALUES (true)")
+    seen, out = set(), []
+    for f in F:
+        k = json.dumps(f["signature"])
+        if k in seen:
+            continue
+        seen.add(k)
+        out.append(dict(id="C07-%03d" % (len(out) + 1), property="C07", status="open", **f))
+    return out
+
+
+if __name__ == "__main__":
+    import sys
+    if "--write-findings" in sys.argv:
+        import os
+        path = os.path.join(os.path.dirname(os.path.dirname(os.path.dirname(os.path.abspath(__file__)))), "findings.d", "C07.json")
+        with open(path, "w") as f:
+            json.dump(predicted_findings(), f, indent=1)
+        print("wrote", path, len(predicted_findings()))
